@@ -61,7 +61,7 @@ class OsuSv(OsuTimingPointMeta, Timed):
             sample_set=int(s_comma[3]),
             sample_set_index=int(s_comma[4]),
             volume=int(s_comma[5]),
-            kiai=bool(int(s_comma[7])),
+            kiai=bool(int(s_comma[7]) & 1),
         )
         return d if as_dict else OsuSv(**d)
 
